@@ -403,7 +403,9 @@ def _worker_specs(arg) -> Acc:
     if ex.outcome == "spec":
         ensure_seams()
         payload = {"kind": "spec", "cfg": cfg.to_json(), "horizon": 60 if tier == "quick" else 150}
-        end_to_end(acc, cfg, ex.spec, 3 if tier == "quick" else 4, 40000 if tier == "quick" else 400000, payload)
+        # thorough: size 4 (100 000-leaf cap) on the quick tier's configurations, size 3 on the extension
+        deep = tier != "quick" and cfg.sid() in _quick_sids()
+        end_to_end(acc, cfg, ex.spec, 4 if deep else 3, 100000 if deep else 40000, payload)
         acc.outcome(cfg.sid())
     if hash(cfg.sid()) % 211 == 3:
         acc.sample({"end_to_end_sampling_of": cfg.sid()})
@@ -488,12 +490,24 @@ def sanity_configs(tier: str) -> List[Any]:
     return cfgs[::step]
 
 
+_QS: Any = None
+
+
+def _quick_sids():
+    global _QS
+    if _QS is None:
+        _QS = {c.sid() for c in spec_configs("quick")}
+    return _QS
+
+
 def spec_configs(tier: str) -> List[Any]:
     cfgs = [c for c in lattice(tier) if not getattr(c, "debug", False) and not getattr(c, "smallest", False)]
     if tier == "quick":
         cfgs = [c for c in cfgs if c.db in ("RuleDB", "Forest") and c.pack in ("base", "norm+sym", "inf2", "g", "marked")]
     else:
-        cfgs = [c for c in cfgs if c.db in ("RuleDB", "Forest")]
+        from mc.checks.common_search import CORE_PACKS
+
+        cfgs = [c for c in cfgs if c.db in ("RuleDB", "Forest") and (c.pack in CORE_PACKS or c.pack.startswith("g") or "marked" in c.pack)]
     return cfgs
 
 
@@ -519,7 +533,7 @@ def run(ctx: Ctx) -> None:
     ctx.pmap(_worker_forms_g, shards)
     cfgs = spec_configs(ctx.tier)
     ctx.bounds = {"form_sizes": 4 if ctx.quick else 5, "end_to_end_sizes": 3 if ctx.quick else 4, "end_to_end_configurations": len(cfgs),
-                  "leaf_cap": 40000 if ctx.quick else 400000}
+                  "leaf_cap": 40000 if ctx.quick else 100000}
     ctx.pmap(_worker_specs, [(c.to_json(), ctx.tier) for c in cfgs], chunksize=4)
     scfgs = sanity_configs(ctx.tier)
     ctx.bounds["interrupted_sanity_check_configurations"] = len(scfgs)
